@@ -18,6 +18,11 @@
 -/
 import Aegean.Proofs.C02
 import Aegean.Proofs.C02Real
+import Aegean.Generated.C02
+
+set_option linter.unusedSimpArgs false
+set_option linter.unusedTactic false
+set_option linter.unreachableTactic false
 
 namespace Aegean.Properties.C02
 open Aegean.Model.C02 Aegean.Spec.C02 Aegean.Proofs.C02
@@ -29,39 +34,8 @@ variable {g : Grid} {lab : Px → Nat} {n : Nat}
     `S` is the pixel set of some reported island iff `S` is the 8-connectivity class (inside the
     flood mask) of a flood pixel and contains one of its own pixels above the seed threshold. -/
 theorem islands_eq_spec (hl : IsLabelling g lab n) (S : Px → Prop) :
-    (∃ I ∈ findIslands g lab n none, ∀ p, p ∈ I.pixels ↔ S p) ↔ IsIsland g S := by
-  constructor
-  · rintro ⟨I, hI, hS⟩
-    obtain ⟨k, _, hk⟩ := mem_findIslands.1 hI
-    obtain ⟨hpix, _, ⟨p0, hp0, hs0⟩, _, _⟩ := islandOf_some hl (Nat.succ_ne_zero k) hk
-    have ⟨g0, l0⟩ := (hpix p0).1 hp0
-    have a0 : g.inA p0 = true := inA_of_label hl g0 (by omega)
-    refine ⟨p0, a0, ?_, p0, (hS p0).1 hp0, hs0⟩
-    intro q
-    rw [← hS q, hpix q]
-    constructor
-    · rintro ⟨gq, lq⟩
-      exact (hl.eq_iff p0 q a0 (inA_of_label hl gq (by omega))).1 (by omega)
-    · intro c
-      have aq := conn_right c
-      exact ⟨inGrid_of_inA aq, by rw [← (hl.eq_iff p0 q a0 aq).2 c]; exact l0⟩
-  · rintro ⟨p0, a0, hS, q, hq, hs⟩
-    have cq := (hS q).1 hq
-    have aq := conn_right cq
-    have lq : lab q = lab p0 := ((hl.eq_iff p0 q a0 aq).2 cq).symm
-    have h0 := label_ne_zero hl a0
-    have hn := hl.le_n p0 a0
-    obtain ⟨I, hI⟩ := islandOf_isSome (inside := none) hl h0 (inGrid_of_inA aq) lq hs (by intro f hf; cases hf)
-    refine ⟨I, mem_findIslands.2 ⟨lab p0 - 1, by omega, by rw [Nat.sub_add_cancel (by omega)]; exact hI⟩, ?_⟩
-    obtain ⟨hpix, _⟩ := islandOf_some hl h0 hI
-    intro p
-    rw [hpix p, hS p]
-    constructor
-    · rintro ⟨gp, lp⟩
-      exact (hl.eq_iff p0 p a0 (inA_of_label hl gp (by omega))).1 lp.symm
-    · intro c
-      have ap := conn_right c
-      exact ⟨inGrid_of_inA ap, ((hl.eq_iff p0 p a0 ap).2 c).symm⟩
+    (∃ I ∈ findIslands g lab n none, ∀ p, p ∈ I.pixels ↔ S p) ↔ IsIsland g S :=
+  islands_eq_spec_core hl S
 
 /-- **islands_disjoint** — two different entries of the returned list share no pixel (with or
     without a region). -/
@@ -257,5 +231,62 @@ example : islandOf g lab none 1 = none := by decide +kernel
 example : boxPinned (fun p => p != (1, 1)) [(1, 1), (1, 2), (1, 3)] = some ⟨1, 2, 2, 4⟩ ∧
     boxOf [(1, 1), (1, 2), (1, 3)] = some ⟨1, 2, 1, 4⟩ := by decide +kernel
 end Pinned
+
+/-! ### Obligations on the pieces regenerated from `find_islands` (they break if the source changes meaning)
+
+`Gen.C02` is written by the translator on every run from the tree under test (translator/targets/C02.py):
+the two threshold comparisons, whether the flood mask requires a finite signal-to-noise, whether the seed
+comparison ranges over the island's own pixels, and the label arithmetic of the loop.  The proofs also go
+through on the hand fallbacks. -/
+
+section regenerated
+open Gen.C02
+
+/-- the flood comparison is `snr ≥ flood` (direction and non-strictness) -/
+theorem flood_test_is_ge (s clip : Int) : floodTest s clip = decide (clip ≤ s) := by
+  by_cases h : clip ≤ s <;> simp [floodTest, floodTestHand, h] <;> omega
+
+/-- the seed comparison is `snr > seed`, strictly -/
+theorem seed_test_is_gt (s clip : Int) : seedTest s clip = decide (clip < s) := by
+  by_cases h : clip < s <;> simp [seedTest, seedTestHand, h] <;> omega
+
+/-- the flood mask is and-ed with `isfinite` -/
+theorem flood_requires_finite (i : Nat) : floodFinite i = 1 := by
+  simp [floodFinite, floodFiniteHand]
+
+/-- the seed comparison is restricted to the island's own pixels -/
+theorem seed_scope_own (i : Nat) : seedScope i = 1 := by
+  simp [seedScope, seedScopeHand]
+
+/-- iteration `i` selects, and masks with, label `i + 1` -/
+theorem labels_consistent (i : Nat) : ownLabel i = i + 1 ∧ maskLabel i = i + 1 := by
+  constructor <;> simp [ownLabel, maskLabel, ownLabelHand, maskLabelHand] <;> omega
+
+/-- **regenerated_eq_model** — `find_islands` assembled (by the fixed glue `findIslandsGen`) from the regenerated
+    seed scope and label arithmetic is the model every theorem above is about -/
+theorem regenerated_eq_model (g : Grid) (lab : Px → Nat) (n : Nat) (inside : Option (Px → Bool)) :
+    findIslandsGen seedScope ownLabel maskLabel g lab n inside = findIslands g lab n inside :=
+  findIslandsGen_eq seed_scope_own (fun k => (labels_consistent k).1) (fun k => (labels_consistent k).2) g lab n inside
+
+/-- **regenerated_masks** — the masks built with the regenerated comparisons from an integer signal-to-noise map
+    are "finite and ≥ flood" and "finite and > seed" -/
+theorem regenerated_masks (blankOn : Px → Bool) (H W : Nat) (snr : Px → Option Int) (flood seed : Int) (p : Px) :
+    ((gridOfSnr floodTest seedTest (floodFinite 0) blankOn H W snr flood seed).A p = true ↔
+        ∃ s, snr p = some s ∧ flood ≤ s) ∧
+    ((gridOfSnr floodTest seedTest (floodFinite 0) blankOn H W snr flood seed).Sd p = true ↔
+        ∃ s, snr p = some s ∧ seed < s) :=
+  ⟨gridOfSnr_A blankOn flood_test_is_ge (flood_requires_finite 0) H W snr flood seed p,
+   gridOfSnr_Sd blankOn seed_test_is_gt H W snr flood seed p⟩
+
+/-- **islands_eq_spec_regenerated** — the headline theorem stated about the assembled regenerated pieces -/
+theorem islands_eq_spec_regenerated {g : Grid} {lab : Px → Nat} {n : Nat} (hl : IsLabelling g lab n) (S : Px → Prop) :
+    (∃ I ∈ findIslandsGen seedScope ownLabel maskLabel g lab n none, ∀ p, p ∈ I.pixels ↔ S p) ↔ IsIsland g S := by
+  rw [regenerated_eq_model]; exact islands_eq_spec hl S
+
+/-- non-vacuity / negation witness: with the pinned scope (0 = whole box) the glue reports the unseeded ring -/
+example : (findIslandsGen (fun _ => 0) ownLabel maskLabel Pinned.g Pinned.lab 2 none).length = 2 ∧
+    (findIslandsGen seedScope ownLabel maskLabel Pinned.g Pinned.lab 2 none).length = 1 := by decide +kernel
+
+end regenerated
 
 end Aegean.Properties.C02
